@@ -578,3 +578,6 @@ TRUSTED = ['the forward / inverse transforms are SPECIFIED in the model (values 
 ASSUMPTIONS = ['default features (serial code paths of cfg_iter_mut!), dev profile with debug assertions',
                'degrees of sparse polynomials are small enough to be unary naturals in the model (< 2^10 in generated cases)']
 HYPOTHESES = ['Fth: field_theory of the dictionary operations', 'eqb_ok: feqb decides equality']
+
+# pinned theorems that instantiate this package's abstract-field theorems at the executed ZpOps dictionary
+EXTRA_PROP_FILES = ['Bridge2']
